@@ -6,6 +6,7 @@ import (
 	"math"
 
 	"github.com/yaricom/goNEAT/v4/neat/genetics"
+	neatmath "github.com/yaricom/goNEAT/v4/neat/math"
 	"github.com/yaricom/goNEAT/v4/neat/network"
 )
 
@@ -29,7 +30,7 @@ func init() {
 		RealParts:  []string{"Network.LoadSensors / ActivateSteps / ForwardSteps / RecursiveSteps, Network.FastNetworkSolver translation, FastModularNetworkSolver ForwardSteps / RecursiveSteps / Relax", "scalar activation functions as trusted primitives of the reference"},
 		StubParts:  []string{"fitness assignment"},
 		Assumes:    []string{"tolerance 1e-9 for summation order; input vectors that put a step / sign neuron within 1e-9 of its discontinuity are skipped and counted", "networks with a neuron that no sensor reaches, or with a cycle, are outside the property and skipped (counted)"},
-		ProbeNames: []string{"probe.net.hidden", "probe.net.bias_link_matters", "probe.net.depth>=3", "probe.net.skip_connection", "probe.net.multi_output", "probe.net.nonsigmoid_activation", "probe.reused_after_flush", "skipped.cyclic", "skipped.unreachable_neuron"},
+		ProbeNames: []string{"probe.net.hidden", "probe.net.bias_link_matters", "probe.net.depth>=3", "probe.net.skip_connection", "probe.net.multi_output", "probe.net.nonsigmoid_activation", "probe.reused_after_flush", "probe.net.hand_built_permuted", "skipped.cyclic", "skipped.unreachable_neuron"},
 	})
 	Register(&Scenario{
 		Prop: "C13", Run: scenarioC13, QuickRuns: 30000, ThoroughRuns: 750000, Level: "exploration",
@@ -47,7 +48,7 @@ func init() {
 		StubParts:  []string{"fitness assignment"},
 		FaultKinds: []string{"fault.capped_depth_query_hit"},
 		Assumes:    []string{"<= 14 nodes per network keeps the library's own exponential search cheap", "non-modular networks with at least one hidden node"},
-		ProbeNames: []string{"probe.dag", "probe.cyclic", "probe.depth>=3", "probe.cap_hit_then_query", "probe.shared_subpath"},
+		ProbeNames: []string{"probe.dag", "probe.cyclic", "probe.depth>=3", "probe.cap_hit_then_query", "probe.shared_subpath", "probe.disabled_module_genome"},
 	})
 }
 
@@ -311,7 +312,28 @@ func scenarioC12(c *RunCtx) {
 				name string
 				f    func() ([]float64, error)
 			}
-			mkStd := func() (*network.Network, error) { return GenesisCopy(g) }
+			// the network under test: the phenotype Genesis builds, or (a share of the vectors) a network built by hand
+			// from the same structure through network.NewNetwork with its all-nodes list in a tape-chosen order
+			var perm []int
+			handBuilt := len(ref.Mods) == 0 && t.Chance("handBuilt", 1, 4)
+			if handBuilt {
+				c.Count("probe.net.hand_built_permuted")
+				sub := t.Sub("handBuilt.perm")
+				perm = make([]int, len(ref.Nodes))
+				for i := range perm {
+					perm[i] = i
+				}
+				for i := len(perm) - 1; i > 0; i-- {
+					j := sub.Intn(i + 1)
+					perm[i], perm[j] = perm[j], perm[i]
+				}
+			}
+			mkStd := func() (*network.Network, error) {
+				if handBuilt {
+					return ref.BuildNetwork(perm), nil
+				}
+				return GenesisCopy(g)
+			}
 			runs := []run{
 				{"Network.ForwardSteps", func() ([]float64, error) {
 					net, err := mkStd()
@@ -412,7 +434,7 @@ func scenarioC12(c *RunCtx) {
 			// the kept instances: Flush, load, one mode
 			if keptStd == nil {
 				c.Lib("Genesis", func() {
-					if keptStd, err = GenesisCopy(g); err == nil {
+					if keptStd, err = mkStd(); err == nil {
 						keptFast, err = keptStd.FastNetworkSolver()
 					}
 				})
@@ -778,6 +800,29 @@ func floats(b []uint64) []float64 {
 	return r
 }
 
+// withDisabledModule returns a harness copy of g that carries one disabled module over two of its nodes.
+func withDisabledModule(t *Tape, g *genetics.Genome) *genetics.Genome {
+	cl := CloneGenome(g, g.Id)
+	maxId, maxInn := 0, int64(0)
+	for _, n := range cl.Nodes {
+		if n.Id > maxId {
+			maxId = n.Id
+		}
+	}
+	for _, gn := range cl.Genes {
+		if gn.InnovationNum > maxInn {
+			maxInn = gn.InnovationNum
+		}
+	}
+	cn := network.NewNNode(maxId+1, network.HiddenNeuron)
+	cn.ActivationType = neatmath.MultiplyModuleActivation
+	cn.AddIncoming(cl.Nodes[t.Draw("dm.in", len(cl.Nodes))], 1.0)
+	cn.AddOutgoing(cl.Nodes[len(cl.Nodes)-1-t.Draw("dm.out", len(cl.Nodes))], 1.0)
+	mg := genetics.NewMIMOGene(cn, maxInn+1, 0, false)
+	mg.IsEnabled = false
+	return genetics.NewModularGenome(cl.Id, cl.Traits, cl.Nodes, cl.Genes, []*genetics.MIMOControlGene{mg})
+}
+
 func scenarioC14(c *RunCtx) {
 	t := c.T
 	maxPop, maxEpochs, maxQ := 14, 12, 6
@@ -790,6 +835,11 @@ func scenarioC14(c *RunCtx) {
 	c.Op("world: %s", w.Describe())
 	genomes = append(genomes, BuildGenome(t, GenomeSpec{AllowDisabled: true, MaxHidden: 5, FeedForwardOnly: !recurrent}))
 	for gi, g := range genomes {
+		if len(g.Nodes) >= 2 && t.Chance("disabledModule", 1, 5) {
+			// a genome whose modules are all disabled expresses a network without control nodes: non-modular in effect
+			g = withDisabledModule(t, g)
+			c.Count("probe.disabled_module_genome")
+		}
 		rec := Canon(g)
 		if len(rec.Nodes) > 14 || len(rec.Genes) > 40 {
 			c.Count("skipped.too_large")
